@@ -44,12 +44,20 @@ type scenario struct {
 	PkgDir string            `json:"pkgdir"`
 	Flags  []string          `json:"flags"`
 	Args   []string          `json:"args"` // default ["."]
+	// Cwd: the directory goderive is started in (default PkgDir).  The packages to process are named by Args
+	// relative to it (".", "./x", "../x", "./x/...") or by import path ("p/x"); PkgDir stays the package the
+	// plan / the effects observation is about.
+	Cwd string `json:"cwd,omitempty"`
 	Class  string            `json:"class"`
 	plan   *plan
 	// a file that must not be modified whatever happens (unparsable user files)
 	broken map[string]bool
 	// derived.gen.go is expected to exist already (second run)
 	second bool
+	// a finding carries every file of the tree, not only the Go files (directories without Go files matter)
+	allFiles bool
+	// the invocation may be refused as a whole (a named directory holds no package): not a finding
+	mayRefuse bool
 }
 
 type entry struct {
@@ -309,7 +317,7 @@ type runner struct {
 func (rn *runner) direct(sc *scenario, class, what, output string, extra map[string]string) {
 	files := map[string]string{}
 	for k, v := range sc.Files {
-		if strings.HasSuffix(k, ".go") || k == "go.mod" {
+		if strings.HasSuffix(k, ".go") || k == "go.mod" || sc.allFiles {
 			files[k] = v
 		}
 	}
@@ -317,7 +325,7 @@ func (rn *runner) direct(sc *scenario, class, what, output string, extra map[str
 		files[k] = v
 	}
 	rn.meta.AddDirect(hx.Direct{Class: class, What: sc.Name + ": " + what, Files: files,
-		Cmd:    "cd " + sc.PkgDir + " && goderive " + strings.Join(append(append([]string{}, sc.Flags...), sc.args()...), " "),
+		Cmd:    "cd " + sc.cwd() + " && goderive " + strings.Join(append(append([]string{}, sc.Flags...), sc.args()...), " "),
 		Output: hx.Truncate(output, 3000)})
 }
 
@@ -337,19 +345,50 @@ func (sc *scenario) flagsSet() bool {
 	return false
 }
 
+// cwd: the directory goderive is started in
+func (sc *scenario) cwd() string {
+	if sc.Cwd != "" {
+		return sc.Cwd
+	}
+	return sc.PkgDir
+}
+
+// modName: the module path of every scenario's go.mod
+const modName = "p"
+
+// resolveArg: the directory (relative to the root of the tree) a command-line argument names when goderive
+// runs in cwd, and whether it stands for the whole subtree ("/...").  "" = not a directory of the tree.
+func resolveArg(cwd, a string) (dir string, rec bool) {
+	if strings.HasSuffix(a, "/...") {
+		rec = true
+		a = strings.TrimSuffix(a, "/...")
+	}
+	switch {
+	case a == "." || a == ".." || strings.HasPrefix(a, "./") || strings.HasPrefix(a, "../"):
+		dir = filepath.Clean(filepath.Join(cwd, a))
+	case a == modName:
+		dir = "."
+	case strings.HasPrefix(a, modName+"/"):
+		dir = filepath.Clean(strings.TrimPrefix(a, modName+"/"))
+	default:
+		return "", false
+	}
+	if dir == ".." || strings.HasPrefix(dir, "../") || filepath.IsAbs(dir) {
+		return "", false
+	}
+	return dir, rec
+}
+
 // processed: is rel a file directly inside a package directory that this invocation processes?
 func (sc *scenario) processed(rel string) bool {
 	dir := filepath.Dir(rel)
 	for _, a := range sc.args() {
-		switch a {
-		case ".":
-			if dir == sc.PkgDir {
-				return true
-			}
-		case "./...":
-			if sc.PkgDir == "." || dir == sc.PkgDir || strings.HasPrefix(dir, sc.PkgDir+"/") {
-				return true
-			}
+		d, rec := resolveArg(sc.cwd(), a)
+		if d == "" {
+			continue
+		}
+		if dir == d || (rec && (d == "." || strings.HasPrefix(dir, d+"/"))) {
+			return true
 		}
 	}
 	return false
@@ -376,7 +415,7 @@ func (rn *runner) run(root string, sc *scenario, keep bool) (*outcomeT, error) {
 			old[rel] = b
 		}
 	}
-	res := hx.Goderive(rn.cfg.Goderive, filepath.Join(root, sc.PkgDir), append(append([]string{}, sc.Flags...), sc.args()...)...)
+	res := hx.Goderive(rn.cfg.Goderive, filepath.Join(root, sc.cwd()), append(append([]string{}, sc.Flags...), sc.args()...)...)
 	rn.meta.GoderiveRuns++
 	rn.n++
 	after, err := snapshot(root)
@@ -386,7 +425,7 @@ func (rn *runner) run(root string, sc *scenario, keep bool) (*outcomeT, error) {
 	o := &outcomeT{class: classifyExit(res), exit: res.Exit, out: res.Out, names: map[string][]string{}}
 	_, o.derived = after[filepath.Join(sc.PkgDir, "derived.gen.go")]
 	rn.meta.Count("outcome/" + o.class)
-	if o.class == "loaderr" && sc.plan == nil && len(sc.broken) == 0 && sc.Class != "corpus" {
+	if o.class == "loaderr" && sc.plan == nil && len(sc.broken) == 0 && sc.Class != "corpus" && !sc.mayRefuse {
 		// a hand-written scenario whose sources all parse and type-check: goderive may refuse it with an
 		// Add Error (conflict/duplicate without the flag), never with a load/format/other error
 		rn.direct(sc, "c10-unexpected-failure", fmt.Sprintf("goderive fails (exit %d) with an error that is neither an Add Error, a Generator Error nor 'cannot generate' on a package whose sources parse and type-check (flags %v)", res.Exit, sc.Flags), res.Out, nil)
